@@ -376,6 +376,8 @@ class IntDomain(TagDomain):
   def attr(self, v, name, node, st):
     if name in ('T', 'real'):
       return self._combine(v)
+    if name == 'dtype' and self._cls(v) == 'mayint':
+      return V(_E, origin=('dtype-of', 'mayint'))
     return _E
 
   def subscript(self, v, idx, node, st):
@@ -416,6 +418,11 @@ class IntDomain(TagDomain):
   def method_call(self, recv, name, args, kwargs, node, st, eng):
     if name == 'astype':
       a = args[0] if args else kwargs.get('dtype')
+      if a is not None and a.origin == ('dtype-of', 'mayint'):
+        self.problems.append(('cast to the dtype of the user\'s data '
+                              '(.astype(<data>.dtype))', self.site(node),
+                              self.cur()))
+        return frozenset(['mayint'])
       if a is not None and ((a.fn and a.fn[0] == 'ext' and a.fn[1] in (
               'builtins.float', 'numpy.float64')) or
               a.const() in ('float', 'float64')):
@@ -475,7 +482,8 @@ def rule_int_safe(repo, rep):
       seen.add(k)
       rep.refuted(R, '%s:%s@%s' % (key, what, fn.key if fn else ''), s,
                   '%s on an array that has the dtype of the user\'s data: '
-                  'raises a casting error for integer input' % what)
+                  'raises a casting error (or truncates) for integer input'
+                  % what)
     if not seen:
       rep.derived(R, key, site(f))
   rep.floor('fit entry points analysed for integer-dtype safety', n, 17)
